@@ -96,6 +96,21 @@ theorem C16_as_text_default (chunks : List Bytes) (whole : Option Text) :
   refine ⟨rfl, ?_⟩
   rw [C16_chunk_independent latin1 latin1_lawful, decodeAll_latin1]
 
+/-- what `as_text()` returned in a decode trace -/
+def astextOf : Trace → Option Text
+  | .decode a _ _ _ _ => a
+  | _ => none
+
+/-- C16 (as_text, every codec): `as_text()` joins the bytes and decodes them once (`/repo` <commit>), so its result is a function
+of the joined bytes alone - for the three modelled codecs their reference decoding, for any other codec whatever its one-shot
+decoder answers (the oracle value) - and two chunkings of the same bytes cannot give different texts, WHATEVER the codec.
+(For `iter_text()` the same needs the incremental decoder to be lawful: `C16_chunk_independent`.) -/
+theorem C16_as_text_whole (isText : Bool) (cs : Charset) (c₁ c₂ : List Bytes) (oracle : Option Text)
+    (h : c₁.flatten = c₂.flatten) :
+    astextOf (decodeModel isText cs c₁ oracle) = astextOf (decodeModel isText cs c₂ oracle)
+    ∧ (isText = true → astextOf (decodeModel isText cs c₁ oracle) = wholeRef cs c₁.flatten oracle) := by
+  cases isText <;> cases cs <;> simp [decodeModel, astextOf, wholeRef, h, decodeAll_latin1, decodeAll_utf8, decodeAll_ascii]
+
 /-! ## `text_content` -/
 
 /-- the model's encoder is core Lean's UTF-8 encoder (`String.utf8EncodeChar`) -/
@@ -194,18 +209,26 @@ theorem C16_stream_lazy (i : StreamIn) :
 
 /-! ## content types -/
 
-/-- the three known-finding classes of `KNOWN_FINDINGS.txt` -/
-def inFinding (ct : CT) : Bool := charsetComma ct || valueCRLF ct || valueEncodedWord ct
+/-- the known-finding classes of `KNOWN_FINDINGS.txt` -/
+def inFinding (ct : CT) : Bool := charsetComma ct || valueCRLF ct || valueEncodedWord ct || nameNotLowerToken ct
+
+/-- the domain of the property (any token as a parameter name) minus the class `nameNotLowerToken` is the domain the round trip
+is proved on: lower-case token names -/
+theorem wf_of_wide {ct : CT} (hw : ct.wfWide = true) (hn : nameNotLowerToken ct = false) : ct.wf = true := by
+  simp only [CT.wfWide, Bool.and_eq_true, Bool.not_eq_true'] at hw
+  simp only [nameNotLowerToken, List.any_eq_false, Bool.not_eq_true, Bool.not_eq_false] at hn
+  simp only [CT.wf, Bool.and_eq_true, Bool.not_eq_true', List.all_eq_true]
+  exact ⟨⟨⟨hw.1.1.1, hw.1.1.2⟩, fun p hp => by simpa using hn p hp⟩, hw.2⟩
 
 /- Full statement (false of the code, findings charset-comma / param-crlf / param-encoded-word):
    ∀ ct, ct.wf → ctypeModel ct = .ctype (render ct) (.ok { ct with params := sortParams ct.params }) -/
 /-- C16 (content type round trip), outside the finding classes: for lower-case token type, subtype and
 parameter names and ANY values without line breaks (quotes, backslashes, separators, NUL, non-ASCII included)
 rendering with `__repr__` and re-parsing gives the same type, subtype and parameter dict. -/
-theorem C16_ct_roundtrip_partial (ct : CT) (hw : ct.wf = true) (hf : inFinding ct = false) :
+theorem C16_ct_roundtrip_partial (ct : CT) (hw : ct.wfWide = true) (hf : inFinding ct = false) :
     model (.ctype ct) = .ctype (render ct) (.ok { ct with params := sortParams ct.params }) := by
   simp only [inFinding, Bool.or_eq_false_iff] at hf
-  exact ctypeModel_roundtrip ct hw hf.1.2 hf.1.1
+  exact ctypeModel_roundtrip ct (wf_of_wide hw hf.2) hf.1.1.2 hf.1.1.1
 
 /-- `ContentType("text", "plain", {"charset": "a,b"})` -/
 def ctComma : CT := ⟨[116, 101, 120, 116], [112, 108, 97, 105, 110], [(charsetName, [97, 44, 98])]⟩
@@ -231,8 +254,19 @@ theorem C16_valueCRLF_witness :
     simp [sortedPairs, ctNewline, joinParams, renderParam, quoteValue, lineBreak, chSlash, chSemi, chSpace, chEq, chQuote, chBackslash]
   simp [parseCT, this]
 
+/-- `ContentType("a", "b", {"K": "v"})` -/
+def ctUpperName : CT := ⟨[97], [98], [([75], [118])]⟩
+
+/-- finding param-name: an upper-case parameter name is in the property's domain, and comes back lower-cased -/
+theorem C16_nameNotLowerToken_witness :
+    ctUpperName.wfWide = true ∧ nameNotLowerToken ctUpperName = true ∧
+      parseCT (render ctUpperName) = .ok ⟨[97], [98], [([107], [118])]⟩ := by
+  refine ⟨by decide, by decide, ?_⟩
+  rw [parseCT_render ctUpperName (by decide) (by decide)]
+  simp [sortedPairs, ctUpperName, fixCharset, charsetName, lowerName, lower, lowerC]
+
 /-- non-vacuity: a value full of characters that need care is in the domain and outside the classes -/
-example : ctHard.wf = true ∧ inFinding ctHard = false := by decide
+example : ctHard.wfWide = true ∧ inFinding ctHard = false := by decide
 
 /-! ## `_copy_content` -/
 
@@ -268,31 +302,31 @@ theorem C16_snapshot_after_changes (cur : List Bytes) (later : List (List Bytes)
 theorem holds_model_no_ctype (i : Input) (hw : i.wf = true) (hc : ∀ ct, i ≠ .ctype ct) (hs : ∀ cts, i ≠ .ctypeSeq cts) :
     holds i (model i) = true := by
   cases i with
-  | eq ctA ctB a b => simp [holds, clauses, model, cShape, cBytes, cEq, cText, cJson, cChunking, cCharset, cChunkSizes, cChunkConcat, cLazy, cCtRoundtrip, cCtHistory, cSnapshot]
+  | eq ctA ctB a b => simp [holds, clauses, model, cShape, cBytes, cEq, cText, cJson, cChunking, cAsText, cCharset, cChunkSizes, cChunkConcat, cLazy, cCtRoundtrip, cCtHistory, cSnapshot]
   | text s =>
     have hs : s.all validCp = true := hw
-    simp [holds, clauses, C16_text_roundtrip s hs, cShape, cBytes, cEq, cText, cJson, cChunking, cCharset, cChunkSizes, cChunkConcat, cLazy, cCtRoundtrip, cCtHistory, cSnapshot, utf8Ref_utf8Encode s hs]
+    simp [holds, clauses, C16_text_roundtrip s hs, cShape, cBytes, cEq, cText, cJson, cChunking, cAsText, cCharset, cChunkSizes, cChunkConcat, cLazy, cCtRoundtrip, cCtHistory, cSnapshot, utf8Ref_utf8Encode s hs]
   | json d =>
     have hs : d.all validCp = true := hw
-    simp [holds, clauses, model, cShape, cBytes, cEq, cText, cJson, cChunking, cCharset, cChunkSizes, cChunkConcat, cLazy, cCtRoundtrip, cCtHistory, cSnapshot, utf8Ref_utf8Encode d hs]
+    simp [holds, clauses, model, cShape, cBytes, cEq, cText, cJson, cChunking, cAsText, cCharset, cChunkSizes, cChunkConcat, cLazy, cCtRoundtrip, cCtHistory, cSnapshot, utf8Ref_utf8Encode d hs]
   | decode isText cs chunks whole =>
     have h1 : (iterText latin1 chunks).map List.flatten = decodeAll latin1 chunks.flatten := C16_chunk_independent latin1 latin1_lawful chunks
     have h2 : (iterText utf8 chunks).map List.flatten = decodeAll utf8 chunks.flatten := C16_chunk_independent utf8 utf8_lawful chunks
     have h3 : (iterText ascii chunks).map List.flatten = decodeAll ascii chunks.flatten := C16_chunk_independent ascii ascii_lawful chunks
     cases isText <;> cases cs <;>
-      simp [holds, clauses, model, decodeModel, cShape, cBytes, cEq, cText, cJson, cChunking, cCharset, cChunkSizes,
+      simp [holds, clauses, model, decodeModel, cShape, cBytes, cEq, cText, cJson, cChunking, cAsText, cCharset, cChunkSizes,
         cChunkConcat, cLazy, cCtRoundtrip, cCtHistory, cSnapshot, wholeRef, h1, h2, h3, decodeAll_latin1, decodeAll_utf8, decodeAll_ascii] <;>
       cases whole <;> simp
   | stream i =>
     have hwf : i.wf = true := hw
     simp only [StreamIn.wf, Bool.and_eq_true, decide_eq_true_eq] at hwf
     have hn : 1 ≤ i.chunkSize := hwf.1.1
-    simp [holds, clauses, model, cShape, cBytes, cEq, cText, cJson, cChunking, cCharset, cCtRoundtrip, cCtHistory, cSnapshot,
+    simp [holds, clauses, model, cShape, cBytes, cEq, cText, cJson, cChunking, cAsText, cCharset, cCtRoundtrip, cCtHistory, cSnapshot,
       model_chunkSizes i, model_chunkConcat i hn hwf.2, model_lazy i]
   | ctype ct => exact absurd rfl (hc ct)
   | ctypeSeq cts => exact absurd rfl (hs cts)
   | copy init ops =>
-    simp [holds, clauses, model, cShape, cBytes, cEq, cText, cJson, cChunking, cCharset, cChunkSizes, cChunkConcat, cLazy, cCtRoundtrip, cCtHistory, model_snapshot init ops]
+    simp [holds, clauses, model, cShape, cBytes, cEq, cText, cJson, cChunking, cAsText, cCharset, cChunkSizes, cChunkConcat, cLazy, cCtRoundtrip, cCtHistory, model_snapshot init ops]
 
 /-- which inputs fall in a known-finding class (as `TTV.Drv.C16.classes`) -/
 def noFinding : Input → Bool
@@ -325,7 +359,7 @@ theorem C16_ct_history_independent (cts : List CT) (hw : cts.all CT.wfU = true)
   have h1 := List.all_eq_true.mp hw ct hct
   have h2 := List.all_eq_true.mp hf ct hct
   simp only [inFinding, Bool.not_eq_true', Bool.or_eq_false_iff] at h2
-  exact ctypePair_lowered ct h1 (by rw [← valueCRLF_lowered]; exact h2.1.2) h2.1.1
+  exact ctypePair_lowered ct h1 (by rw [← valueCRLF_lowered]; exact h2.1.1.2) h2.1.1.1
 
 /- Full statement `∀ i, i.wf → holds i (model i) = true` is false: the model reproduces the defects of the finding
    classes (`C16_charsetComma_witness`, `C16_valueCRLF_witness`). -/
@@ -336,10 +370,10 @@ theorem holds_model_partial (i : Input) (hw : i.wf = true) (hf : noFinding i = t
   | ctype ct =>
     have hf' : inFinding ct = false := by simpa [noFinding] using hf
     have := C16_ct_roundtrip_partial ct hw hf'
-    simp [holds, clauses, this, cShape, cBytes, cEq, cText, cJson, cChunking, cCharset, cChunkSizes, cChunkConcat, cLazy, cCtRoundtrip, cCtHistory, cSnapshot]
+    simp [holds, clauses, this, cShape, cBytes, cEq, cText, cJson, cChunking, cAsText, cCharset, cChunkSizes, cChunkConcat, cLazy, cCtRoundtrip, cCtHistory, cSnapshot]
   | ctypeSeq cts =>
     have h := C16_ct_history_independent cts hw (by simpa [noFinding] using hf)
-    simp only [holds, clauses, h, List.all_cons, List.all_nil, cShape, cBytes, cEq, cText, cJson, cChunking, cCharset, cChunkSizes,
+    simp only [holds, clauses, h, List.all_cons, List.all_nil, cShape, cBytes, cEq, cText, cJson, cChunking, cAsText, cCharset, cChunkSizes,
       cChunkConcat, cLazy, cCtRoundtrip, cSnapshot, cCtHistory, Bool.true_and, Bool.and_true, List.length_map, beq_self_eq_true]
     rw [List.all_eq_true]
     intro q hq
@@ -360,6 +394,26 @@ theorem C16_src_iter_text {σ : Type} (D : Decoder σ) (chunks : List Bytes) :
       ∧ ContentSkel.defaultOf Generated.ContentSrc.iterText = some .iso8859_1 := by
   have e : Generated.ContentSrc.iterText = ContentSkel.refIterText := by decide
   rw [e]; exact ⟨ContentSkel.iterTextI_ref D chunks, ContentSkel.defaultOf_ref⟩
+
+/-- the one-shot decoder the model uses for a charset (`oracle` answers for codecs that are not modelled) -/
+def modelWhole (cs : Charset) (oracle : Option Text) (b : Bytes) : Option Text :=
+  match cs with
+  | .absent | .latin1 => decodeAll latin1 b
+  | .utf8 => decodeAll utf8 b
+  | .ascii => decodeAll ascii b
+  | .opaque => oracle
+
+/-- what the model says `as_text()` gives (text or exception) is the interpretation of `Content.as_text` as found in the source:
+a non-text type is refused, the charset is looked up with default ISO-8859-1, the bytes are JOINED and decoded ONCE - for every
+charset, chunking and oracle (evaluated on the generated steps) -/
+theorem C16_src_as_text (isText : Bool) (cs : Charset) (chunks : List Bytes) (oracle : Option Text) :
+    ContentSkel.asTextI isText (modelWhole cs oracle) chunks Generated.ContentSrc.asText false
+      = (match decodeModel isText cs chunks oracle with | .decode a e _ _ _ => some (a, e) | _ => none)
+    ∧ ContentSkel.defaultOfAsText Generated.ContentSrc.asText = some .iso8859_1 := by
+  refine ⟨?_, by decide⟩
+  cases isText <;> cases cs <;>
+    simp [ContentSkel.asTextI, Generated.ContentSrc.asText, decodeModel, modelWhole] <;>
+    (try (split <;> simp_all))
 
 /-- `content_from_reader` as found in the source: with `buffer_now` the reader is evaluated once, at construction, into a LIST
 of its chunks which every later `iter_bytes()` replays (as `streamModel` does); without it the reader is evaluated each time -/
